@@ -22,6 +22,7 @@ type SpecEnv struct {
 	hdr   *ssa.BasicBlock // loop header when evaluating an invariant
 	quant int
 	what  string
+	bound []string
 }
 
 type specErr struct{ msg string }
@@ -124,7 +125,7 @@ func (env *SpecEnv) isSeqLike(v *Value) bool {
 func (env *SpecEnv) isGhostBuf(v *Value) bool {
 	if pt, ok := v.T.Underlying().(*types.Pointer); ok && isGhostType(pt.Elem()) {
 		l := env.x.eng.layout(pt.Elem())
-		return len(l) == 2 && l[0].Sort == SArr
+		return len(l) == 3 && l[0].Sort == SArr
 	}
 	return false
 }
@@ -161,9 +162,9 @@ func (env *SpecEnv) toSeq(v *Value) *SeqV {
 		// pointer to ghost buffer
 		if isGhostType(u.Elem()) {
 			l := x.eng.layout(u.Elem())
-			if len(l) == 2 && l[0].Sort == SArr {
+			if len(l) == 3 && l[0].Sort == SArr {
 				g := x.Load(env.st, x.ptrOf(v))
-				return rowSeq(g.C[0], IntLit(0), g.C[1])
+				return rowSeq(x.ctx.Name("garr", g.C[0]), g.C[1], g.C[2])
 			}
 		}
 	}
@@ -179,7 +180,12 @@ func (env *SpecEnv) materialise(s *SeqV) (Term, Term) {
 		return s.Arr, s.Len
 	}
 	if env.quant > 0 {
-		sfail("cannot pass a computed sequence to an uninterpreted function under a quantifier")
+		probe := s.Len.S + "|" + s.At(Term{"$i", SInt}).S
+		for _, bn := range env.bound {
+			if strings.Contains(probe, bn) {
+				sfail("cannot pass a sequence that depends on a bound variable to an uninterpreted function")
+			}
+		}
 	}
 	c := env.x.ctx
 	key := "mat|" + s.Len.S + "|" + s.At(Term{"$i", SInt}).S
@@ -267,6 +273,15 @@ func (env *SpecEnv) eval(e Expr) *Value {
 			return mkBool(Not(env.asBool(v)))
 		case "-":
 			return mkInt(Neg(env.asInt(v)))
+		case "*":
+			if v.T != nil && isPointer(v.T) {
+				lv := env.x.Load(env.st, env.x.ptrOf(v))
+				if env.quant == 0 {
+					env.x.ctx.Assume(env.x.eng.typeInv(lv, env.st.alloc))
+				}
+				return lv
+			}
+			return v
 		}
 	case *ECond:
 		c := env.asBool(env.eval(n.C))
@@ -340,6 +355,18 @@ func (env *SpecEnv) ite(c Term, a, b *Value) *Value {
 func (env *SpecEnv) ident(name string) *Value {
 	if v, ok := env.vars[name]; ok {
 		return v
+	}
+	// rangeindexN: hidden index of the N-th loop
+	if env.frame != nil && strings.HasPrefix(name, "rangeindex") && len(name) > len("rangeindex") {
+		var n int
+		fmt.Sscanf(name[len("rangeindex"):], "%d", &n)
+		for h, lp := range env.frame.loops {
+			if lp.ordinal == n {
+				if a := env.frame.localByName("rangeindex", h); a != nil {
+					return env.x.Load(env.st, &Ptr{Local: a, RootT: derefT(a.Type())})
+				}
+			}
+		}
 	}
 	// local variable (loop invariants)
 	if env.frame != nil {
@@ -488,6 +515,11 @@ func (env *SpecEnv) index(xv *Value, i Term) *Value {
 	}
 	if xv.T == nil {
 		sfail("index of %s", describe(xv))
+	}
+	if pt, ok := xv.T.Underlying().(*types.Pointer); ok {
+		if _, isSl := pt.Elem().Underlying().(*types.Slice); isSl {
+			xv = x.Load(env.st, x.ptrOf(xv))
+		}
 	}
 	switch u := xv.T.Underlying().(type) {
 	case *types.Slice:
@@ -648,6 +680,9 @@ func (env *SpecEnv) quantExpr(n *EQuant) *Value {
 	}
 	sub := env.with(vars)
 	sub.quant = env.quant + 1
+	for _, bv := range bvs {
+		sub.bound = append(sub.bound, bv.S)
+	}
 	body := sub.asBool(sub.eval(n.Body))
 	if n.Forall {
 		return mkBool(Forall(bvs, Implies(And(guards...), body)))
@@ -743,6 +778,10 @@ func (env *SpecEnv) call(n *ECall) *Value {
 		if !ok || !isIface(v.T) {
 			sfail("typeis(iface, \"type\")")
 		}
+		if s.V == "stream" {
+			_, isB := x.readerRef(v)
+			return mkBool(isB)
+		}
 		t := x.eng.findType(s.V)
 		if t == nil {
 			sfail("unknown type %s", s.V)
@@ -751,6 +790,12 @@ func (env *SpecEnv) call(n *ECall) *Value {
 	case "ref":
 		v := env.eval(n.Args[0])
 		return mkInt(v.C[0])
+	case "content":
+		return env.eval(n.Args[0])
+	case "rd":
+		// remaining stream of a reader (interface value or *bytes.Buffer / *bytes.Reader)
+		v := env.eval(n.Args[0])
+		return seqVal(x.readerSeq(env.st, v))
 	case "held":
 		v := env.eval(n.Args[0])
 		var g *Value
@@ -775,6 +820,13 @@ func (env *SpecEnv) call(n *ECall) *Value {
 func (env *SpecEnv) toSeqLen(v *Value) Term {
 	if v.Seq != nil {
 		return v.Seq.Len
+	}
+	if v.T != nil {
+		if pt, ok := v.T.Underlying().(*types.Pointer); ok {
+			if _, isSl := pt.Elem().Underlying().(*types.Slice); isSl {
+				v = env.x.Load(env.st, env.x.ptrOf(v))
+			}
+		}
 	}
 	if isSlice(v.T) || isString(v.T) {
 		return v.C[2]
